@@ -540,6 +540,14 @@ func (vc *VC) specCall(env *SpecEnv, e *SCall) Val {
 			}
 			vc.fail("spec: len of %s", specString(e.Args[0]))
 			return Val{IntLit(0), ti}
+		case "disjoint":
+			// disjoint(a, b): the two slices have different backing arrays
+			a, b := vc.specEval(env, e.Args[0]), vc.specEval(env, e.Args[1])
+			if a.T.Sort != SSlc || b.T.Sort != SSlc {
+				vc.fail("spec: disjoint of non-slices")
+				return Val{TTrue, nil}
+			}
+			return Val{Not(Eq(sbase(a.T), sbase(b.T))), types.Typ[types.Bool]}
 		case "min", "max":
 			a, b := vc.specEval(env, e.Args[0]), vc.specEval(env, e.Args[1])
 			return Val{app(SInt, "i"+id.Name, a.T, b.T), a.GoT}
